@@ -108,3 +108,77 @@ def action_ast(repo, g, funcname):
 
 def productions_of(g, lhs):
     return [p for p in g["productions"] if p["lhs"] == lhs]
+
+
+def mro_classes(repo, g):
+    """[(module, ast.ClassDef)] in MRO order for the effective parser class."""
+    out = []
+    for c in g.get("mro", []):
+        rel = c.get("file")
+        if rel is None or not repo.exists(rel):
+            continue
+        mod = repo.module(rel)
+        if mod.has(c["qualname"]):
+            out.append((mod, mod.cls(c["qualname"])))
+    if not out:
+        raise AnchorMissing("MRO of the effective parser class could not be mapped to source")
+    return out
+
+
+def resolve_method(repo, g, name, after=None):
+    """First definition of method ``name`` in the MRO (after class node ``after`` if given)."""
+    import ast as _ast
+
+    chain = mro_classes(repo, g)
+    started = after is None
+    for mod, cls in chain:
+        if not started:
+            if cls is after:
+                started = True
+            continue
+        for n in cls.body:
+            if isinstance(n, (_ast.FunctionDef, _ast.AsyncFunctionDef)) and n.name == name:
+                return mod, cls, n
+    return None
+
+
+def action_bodies(repo, g, funcname, _depth=0):
+    """All function ASTs that make up the effective action: the resolved method itself,
+    the methods it delegates to with ``super().m(p)`` / ``self.p_other(p)`` (MRO-resolved),
+    transitively.  Template closures are returned as single bodies."""
+    import ast as _ast
+    from .loader import call_name, calls_in
+
+    info = g["pfuncs"].get(funcname)
+    if info is not None and "<locals>" in (info.get("qualname") or ""):
+        mod, fn, _ = action_ast(repo, g, funcname)
+        return [(mod, fn)]
+    first = resolve_method(repo, g, funcname)
+    if first is None:
+        if info is not None:
+            mod, fn, _ = action_ast(repo, g, funcname)
+            return [(mod, fn)]
+        raise AnchorMissing(f"method {funcname} not found in the MRO")
+    out = []
+    todo = [first]
+    seen = set()
+    while todo:
+        mod, cls, fn = todo.pop()
+        if id(fn) in seen:
+            continue
+        seen.add(id(fn))
+        out.append((mod, fn))
+        if len(out) > 12:
+            break
+        for c in calls_in(fn):
+            nm = call_name(c)
+            f = c.func
+            if isinstance(f, _ast.Attribute) and isinstance(f.value, _ast.Call) and isinstance(f.value.func, _ast.Name) and f.value.func.id == "super":
+                nxt = resolve_method(repo, g, f.attr, after=cls)
+                if nxt is not None:
+                    todo.append(nxt)
+            elif nm and nm.startswith("self.") and nm.count(".") == 1 and (nm[5:].startswith("p_") or nm[5:].startswith("_")):
+                nxt = resolve_method(repo, g, nm[5:])
+                if nxt is not None and nxt[2] is not fn:
+                    todo.append(nxt)
+    return out
